@@ -13,7 +13,7 @@ REPO = os.environ.get("VERIF_REPO", "/repo")
 SPEC = os.path.join(VERIF, "spec")
 HARNESS = os.path.join(VERIF, "harness")
 OUT = os.path.join(VERIF, "out")
-EVID = os.path.join(VERIF, "evidence")
+EVID = os.path.join(VERIF, "evidence") if REPO == "/repo" else os.path.join(OUT, "evidence_scratch")
 NCPU = os.cpu_count() or 4
 
 GOENV = dict(GOFLAGS="-mod=mod", GOPROXY="off", GOSUMDB="off", GOTOOLCHAIN="local",
@@ -197,18 +197,29 @@ def go_env():
     return e
 
 
-def prepare_harness():
-    """go.mod of the harness points at REPO; go.sum is the repository's."""
+def harness_dir(pid):
+    """The harness module to build.  With VERIF_REPO set (self-tests against a scratch
+    worktree) a private copy is used whose go.mod points at that tree."""
+    if REPO == "/repo":
+        return HARNESS
+    d = os.path.join(OUT, pid, "harness_copy")
+    if os.path.isdir(d):
+        shutil.rmtree(d)
+    shutil.copytree(HARNESS, d)
+    subprocess.run(["go1.26", "mod", "edit", "-replace",
+                    "github.com/prometheus/alertmanager=" + REPO], cwd=d, env=go_env(), check=True)
+    return d
+
+
+def prepare_harness(hdir):
+    """go.sum of the harness is the repository's."""
     src = os.path.join(REPO, "go.sum")
-    dst = os.path.join(HARNESS, "go.sum")
+    dst = os.path.join(hdir, "go.sum")
     try:
         if not os.path.exists(dst) or open(src, "rb").read() != open(dst, "rb").read():
             shutil.copy(src, dst)
     except OSError as e:
         raise Inconclusive("cannot copy go.sum: %s" % e)
-    if REPO != "/repo":
-        subprocess.run(["go1.26", "mod", "edit", "-replace",
-                        "github.com/prometheus/alertmanager=" + REPO], cwd=HARNESS, env=go_env())
 
 
 def overlay_file(pid):
@@ -228,14 +239,15 @@ def overlay_file(pid):
 
 def go_build_test(pid, pkg, tags="verif", timeout=900, overlay=True):
     """Compile harness package pkg into out/<pid>/<pkg>.test from REPO's working tree."""
-    prepare_harness()
+    hdir = harness_dir(pid)
+    prepare_harness(hdir)
     binp = os.path.join(OUT, pid, pkg.replace("/", "_") + ".test")
     cmd = ["go1.26", "test", "-c", "-vet=off", "-tags", tags, "-o", binp]
     if overlay:
         cmd += ["-overlay", overlay_file(pid)]
     cmd.append("./" + pkg)
     t0 = time.time()
-    p = subprocess.run(cmd, cwd=HARNESS, env=go_env(), stdout=subprocess.PIPE,
+    p = subprocess.run(cmd, cwd=hdir, env=go_env(), stdout=subprocess.PIPE,
                        stderr=subprocess.STDOUT, text=True, timeout=timeout)
     if p.returncode != 0:
         raise Inconclusive("harness build failed for %s:\n%s" % (pkg, p.stdout[-4000:]))
